@@ -3,8 +3,10 @@ import HexProps.C01
 /-
 C02 – Readings of closed candles are final: no look-ahead, no repainting.
 
-Proved, for every float carrier `F`, for LEAF indicators under their `Contract` on the base
-timeframe (where every candle, the newest included, is closed): the snapshot after any prefix of
+Proved, for every float carrier `F`, for LEAF indicators under their `Contract`; on a collapsing
+timeframe (no fill): all buckets but the still-forming last one of an earlier snapshot are a
+prefix of every later snapshot (`closed_candles_final_leaf_tf`); on the base timeframe (where
+every candle, the newest included, is closed): the snapshot after any prefix of
 an append history is a list prefix – full candles: OHLCV, timestamp, both reading dicts – of the
 snapshot at any later point; a batch run over a truncated stream is the truncation of the batch
 run over the longer stream; and two streams that agree on their first `k` candles give the same
@@ -28,6 +30,29 @@ theorem closed_candles_final_leaf (ind : Ind F) (hl : IsLeaf ind) (K : Contract 
   rw [runIndicator_refines ind hl K init _ hp, List.flatten_append, ← List.append_assoc] at h₂
   obtain ⟨d₁, h₁, hpre, _⟩ := rowMajor_prefix ind _ _ snap₂ h₂
   exact ⟨d₁, by rw [runIndicator_refines ind hl K init chunks₁ hp₁]; exact h₁, hpre⟩
+
+/-- what is observed as closed: everything on the base timeframe, all but the last (still
+forming) bucket on a collapsing one -/
+def closed (tf : Option Int) (snap : List (Candle F)) : List (Candle F) :=
+  match tf with
+  | none => snap
+  | some _ => snap.dropLast
+
+/-- **Closed candles are final on a collapsing timeframe.**  If both histories run, every bucket
+of the earlier snapshot except its last (still forming) one – OHLCV, label, readings – is already
+what it is in the later snapshot. -/
+theorem closed_candles_final_leaf_tf (tf : Int) (htf : 0 < tf) (ind : Ind F) (hl : IsLeaf ind)
+    (K : Contract ind) (init : List (Candle F)) (chunks₁ chunks₂ : List (List (Candle F)))
+    (hraw : RawTf (init ++ (chunks₁ ++ chunks₂).flatten)) (snap₁ snap₂ : List (Candle F))
+    (h₁ : candlesOf (runIndicator ind (cfgTf tf) init chunks₁) = .ok snap₁)
+    (h₂ : candlesOf (runIndicator ind (cfgTf tf) init (chunks₁ ++ chunks₂)) = .ok snap₂) :
+    closed (some tf) snap₁ <+: snap₂ := by
+  have hraw' : RawTf ((init ++ chunks₁.flatten) ++ chunks₂.flatten) := by
+    simpa [List.flatten_append, List.append_assoc] using hraw
+  have r₁ := runIndicator_tf_refines tf htf ind hl K init chunks₁ hraw'.append_left snap₁ h₁
+  have r₂ := runIndicator_tf_refines tf htf ind hl K init (chunks₁ ++ chunks₂) hraw snap₂ h₂
+  rw [List.flatten_append, ← List.append_assoc] at r₂
+  exact closed_prefix_tf tf htf ind _ _ snap₁ snap₂ hraw' r₁ r₂
 
 /-- **Truncation of a batch run**: `calculate()` over the first `k` candles gives the first `k`
 candles of `calculate()` over the whole stream. -/
@@ -60,15 +85,29 @@ theorem no_lookahead_leaf (ind : Ind F) (hl : IsLeaf ind) (K : Contract ind)
   rw [hk, b] at a
   exact (Except.ok.inj a).symm
 
-/-- what is observed as closed: everything on the base timeframe, all but the last (still
-forming) bucket on a collapsing one -/
-def closed (tf : Option Int) (snap : List (Candle F)) : List (Candle F) :=
-  match tf with
-  | none => snap
-  | some _ => snap.dropLast
+/-- **C02, partial: all covered kinds** (`Covered`: every shipped leaf class except the Amorph
+wrapper), base timeframe (`tf = none`) or collapsing timeframe without fill: closed candles of an
+earlier snapshot are a prefix of every later snapshot. -/
+theorem C02_partial (tf : Option Int) (htf : ∀ t, tf = some t → 0 < t) (k : Kind F) (name : String)
+    (round : Nat) (hk : Covered name k) (init : List (Candle F)) (chunks₁ chunks₂ : List (List (Candle F)))
+    (hraw : RawTf (init ++ (chunks₁ ++ chunks₂).flatten)) (snap₁ snap₂ : List (Candle F))
+    (h₁ : candlesOf (runIndicator (mkTop k name round) { tf := tf } init chunks₁) = .ok snap₁)
+    (h₂ : candlesOf (runIndicator (mkTop k name round) { tf := tf } init (chunks₁ ++ chunks₂)) = .ok snap₂) :
+    closed tf snap₁ <+: snap₂ := by
+  obtain ⟨K⟩ := hk.contract round
+  cases tf with
+  | none =>
+    obtain ⟨s₁, hs₁, hpre⟩ := closed_candles_final_leaf _ (hk.isLeaf round) K init chunks₁ chunks₂
+      hraw.plain snap₂ h₂
+    rw [h₁] at hs₁
+    cases hs₁
+    exact hpre
+  | some t =>
+    exact closed_candles_final_leaf_tf t (htf t rfl) _ (hk.isLeaf round) K init chunks₁ chunks₂ hraw
+      snap₁ snap₂ h₁ h₂
 
 /-- **C02 at full strength** (every shipped kind, timeframes, gap filling).  NOT proved yet; see
-`C01_FULL` for what is missing (the remaining contracts, trees with helpers, the timeframe case). -/
+`C01_FULL` for what is missing (the remaining contracts, trees with helpers, gap filling). -/
 def C02_FULL (F : Type) [PyF F] : Prop :=
   ∀ (k : Kind F) (name : String) (round : Nat) (tf : Option Int) (fill : Bool)
     (init : List (Candle F)) (chunks₁ chunks₂ : List (List (Candle F))) (snap₁ snap₂ : List (Candle F)),
@@ -86,5 +125,11 @@ example : smaColumn (candlesOf (runIndicator demoSMA {} [] ([demo.take 1] ++ [de
     = some [none, some 3, some 3, some 4] := by decide
 example : smaColumn (candlesOf (runIndicator demoSMA {} [] [demo.take 2])) = some [none, some 3] := by decide
 example : RawInput ([] ++ ([demo.take 1] ++ [demo.drop 1]).flatten) := by decide
+
+/-- timeframe: the first bucket is still forming after the first append (SMA `None`, close 2),
+and is re-opened by the second; the hypotheses of `closed_candles_final_leaf_tf` are met -/
+example : smaColumn (candlesOf (runIndicator demoSMA (cfgTf 120) [] [demo.take 1])) = some [none] := by
+  decide +kernel
+example : RawTf ([] ++ ([demo.take 1] ++ [demo.drop 1]).flatten) := ⟨by decide, by decide, by decide, by decide⟩
 
 end Hex.C02
